@@ -38,14 +38,15 @@ type Query struct {
 }
 
 type Result struct {
-	Status  string // unsat | sat | unknown
-	Stage   string // ground | quant
-	Solver  string
-	Seconds float64
-	Model   map[string]string // term -> value (ground stage sat)
-	Raw     string
-	Insts   int
-	Size    int
+	Status      string // unsat | sat | unknown
+	Stage       string // ground | quant
+	Solver      string
+	Seconds     float64
+	Model       map[string]string // term -> value (ground stage sat)
+	Raw         string
+	Insts       int
+	Size        int
+	GoalSkolems []SkInfo
 }
 
 var interpreted = map[string]bool{
@@ -58,17 +59,34 @@ var interpreted = map[string]bool{
 // negation normal form pieces -------------------------------------------------
 
 type prep struct {
-	q     *Query
-	fresh int
-	extra []Var
-	hyps  []*sx.T
-	qs    []Quant
+	q      *Query
+	fresh  int
+	extra  []Var
+	hyps   []*sx.T
+	qs     []Quant
+	inGoal bool     // skolems created while negating the goal are the witnesses of the violation
+	goalSk []SkInfo // in order of creation
+	curVar string
+}
+
+// SkInfo describes one Skolem constant standing for a universally quantified variable of the goal.
+type SkInfo struct {
+	Name string // sk!N
+	Var  string // the bound variable it replaces (without the ?N suffix)
+	Sort string
 }
 
 func (p *prep) sk(sort string) *sx.T {
 	p.fresh++
 	n := fmt.Sprintf("sk!%d", p.fresh)
 	p.extra = append(p.extra, Var{n, sort})
+	if p.inGoal {
+		v := p.curVar
+		if i := strings.Index(v, "?"); i >= 0 {
+			v = v[:i]
+		}
+		p.goalSk = append(p.goalSk, SkInfo{Name: n, Var: v, Sort: sort})
+	}
 	return sx.Atom(n)
 }
 
@@ -109,6 +127,7 @@ func (p *prep) pos(f *sx.T) {
 	case "exists":
 		env := map[string]*sx.T{}
 		for _, v := range bindersOf(f) {
+			p.curVar = v.Name
 			env[v.Name] = p.sk(v.Sort)
 		}
 		body, _ := stripBang(f.L[2])
@@ -148,6 +167,7 @@ func (p *prep) neg(f *sx.T) {
 	case "forall":
 		env := map[string]*sx.T{}
 		for _, v := range bindersOf(f) {
+			p.curVar = v.Name
 			env[v.Name] = p.sk(v.Sort)
 		}
 		body, _ := stripBang(f.L[2])
@@ -664,7 +684,12 @@ func Check(q *Query, opt Options) Result {
 		p.pos(h)
 	}
 	p.qs = append(p.qs, q.Quants...)
+	p.inGoal = true
 	p.neg(q.Goal)
+	p.inGoal = false
+	for _, sk := range p.goalSk { // ask for the witnesses of the violation
+		q.Values = append(q.Values, sx.Atom(sk.Name))
+	}
 	insts := instantiate(p.qs, p.hyps, 6, 4000)
 	dump := ""
 	if opt.DumpDir != "" {
@@ -694,8 +719,26 @@ func Check(q *Query, opt Options) Result {
 	}
 	if st == "sat" {
 		r.Model = parseValues(groundRaw)
+		r.GoalSkolems = p.goalSk
 	}
 	return r
+}
+
+// NegSkolem returns the negation of goal in the form the ground stage uses: a conjunction in which the goal's
+// universally quantified variables are replaced by Skolem constants (returned in order of creation).
+func NegSkolem(goal *sx.T) (conj []*sx.T, sks []SkInfo, decls []Var) {
+	p := &prep{}
+	p.inGoal = true
+	p.neg(goal)
+	conj = append(conj, p.hyps...)
+	for _, q := range p.qs {
+		var bs []*sx.T
+		for _, v := range q.Vars {
+			bs = append(bs, sx.List(sx.Atom(v.Name), sx.Atom(v.Sort)))
+		}
+		conj = append(conj, sx.List(sx.Atom("forall"), sx.List(bs...), q.Body))
+	}
+	return conj, p.goalSk, p.extra
 }
 
 // parseValues extracts the (get-value ...) answer: list of (term value).
